@@ -126,7 +126,7 @@ func checkC13(p *Program, r *Reporter) {
 			continue
 		}
 		hasVideo, hasSetting := false, false
-		for _, cd := range factsOf(fn).transitiveCDeps(s.Block(), true) {
+		for _, cd := range effectiveCDeps(s.Block(), true) {
 			if bo, ok := cd.V.(*ssa.BinOp); ok && cd.Pos {
 				if bo.Op == token.EQL {
 					if cs, ok := constString(bo.Y); ok && cs == "video" {
